@@ -202,5 +202,19 @@ impl Server {
 //@endfn
 //@endimpl
 
+//@item src/lib.rs struct IncomingRequests
+//@impl src/lib.rs "Iterator for IncomingRequests<'_>" inherent
+//@fn next ret res props C07,C17
+//@spec
+    ensures
+        // the iterator is recv(): a request it yields was taken from the queue by exactly this call; it ends (None) when a
+        // receive step came back with an error or an Unblock token
+        match res {
+            Some(rq) => old(self).server.got_request(rq),
+            None => true,
+        },
+//@endfn
+//@endimpl
+
 } // verus!
 fn main() {}
